@@ -190,6 +190,7 @@ pub struct NodeObs {
 }
 
 pub struct RunOut {
+    pub log: Vec<String>,
     pub violations: Vec<Violation>,
     pub probes: Probes,
     pub counters: FaultCounters,
@@ -547,6 +548,10 @@ impl<'p, C: SimCfg> World<'p, C> {
                     self.probes.ticks += 1;
                     self.nodes[i].tick_no = b;
                     self.tick(i);
+                    if self.core.borrow().log.is_some() {
+                        let line = format!("t={} tick node {i} #{b} -> frame {} trace {:016x}", t, self.nodes[i].game.g, self.nodes[i].game.trace.0);
+                        self.core.borrow_mut().log.as_mut().unwrap().push(line);
+                    }
                 }
                 _ => unreachable!(),
             }
@@ -1807,6 +1812,7 @@ impl<'p, C: SimCfg> World<'p, C> {
         // the virtual clock of this thread must not leak into the next run
         ggrs::verif::set_now_micros(0);
         RunOut {
+            log: core.log.clone().unwrap_or_default(),
             violations: self.viol,
             probes,
             counters: core.counters.clone(),
